@@ -240,9 +240,6 @@ func runQuote(w *out.W, tier string) {
 				w.Count(fmt.Sprintf("ident:closed=%v", closed))
 				if !closed {
 					class := "quote-not-closed"
-					if strings.IndexByte(s, qc) >= 0 {
-						class = "ident-closing-quote"
-					}
 					w.Violation(fmt.Sprintf("q%d-id%c", i, map[byte]byte{'`': 'b', '"': 'd'}[qc]), class, fmt.Sprintf("Builder.Ident(%q) with quote %c = %q", s, qc, trunc(q, 80)))
 				}
 			}
